@@ -347,6 +347,33 @@ def run(R):
                             {'n': len(weights), 'weights': [str(w) for w in weights], 'signers': signers, 'margin': e, 'operator': 'knife-edge',
                              'seeds': [bytes(k).hex() for k in world.keys], 'root': root, 'file': fileh, 'reason': reason, 'weight_class': 'knife-edge'})
             R.case(mon.fp('knife', e, tuple(weights), tuple(signers)))
+    # ---- two entries of the supplied set carrying the same public key: the set's total weight is the sum over ALL supplied entries. Only a validator with a key of its
+    # own signs (which entry a signature by the shared key would count for is not defined, so that is not asked)
+    from nacl.signing import SigningKey
+    from pytoniq_core.tlb.config import ValidatorDescr, SigPubKey
+    for rep in range(40 if quick else 1500):
+        kK, kL = SigningKey(rng.randbytes(32)), SigningKey(rng.randbytes(32))
+        a, b_, c = rng.choice([(10, 1, 3), (1, 10, 3), (1, 1, 10), (5, 5, 21), (5, 5, 20), (7, 0, 15), (0, 7, 14), (rng.randint(1, 50), rng.randint(1, 50), rng.randint(1, 300))])
+        entries = [(kK, a), (kK, b_), (kL, c)]
+        if rep % 3 == 1:
+            entries = [(kL, c), (kK, a), (kK, b_)]
+        elif rep % 3 == 2:
+            entries = [(kK, a), (kL, c), (kK, b_)]
+        nodes = [ValidatorDescr('validator', SigPubKey(bytes(k.verify_key)), w) for k, w in entries]
+        root, fileh = rng.randbytes(32), rng.randbytes(32)
+        blk = BlockIdExt(-1, -(1 << 63), rng.getrandbits(31), root, fileh)
+        sigs = [{'node_id_short': node_id(bytes(kL.verify_key)).hex(), 'signature': kL.sign(MAGIC + root + fileh).signature}]
+        total = a + b_ + c
+        want = 'accept' if 3 * c > 2 * total else 'reject'
+        st, e = mon.call(check_block_signatures, nodes, sigs, blk)
+        got = 'accept' if st == 'ok' else 'reject'
+        R.counters['oracle_evaluations'] += 1
+        R.count('shared_key_entry_cases')
+        R.count('verdict_' + want)
+        R.check(got == want, f'{"accepted" if got == "accept" else "rejected"}-with-two-entries-sharing-a-key',
+                f'validator set with two entries of one public key (weights {a}, {b_}) and a third validator of weight {c} who alone signs: total {total}, signed {c} - must be {want}ed, was {got}ed',
+                {'weights_in_order': [w for _, w in entries], 'signer_weight': c, 'total': total})
+        R.case(mon.fp('sharedkey', a, b_, c, rep % 3))
     R.floor('knife_edge_cases', 10)
     R.floor('nodes_parsed-from-tlb', 300)
     R.floor('nodes_compute_validator_set', 300)
